@@ -117,13 +117,28 @@ def gen_programs(rng, quick):
     for i in range(n_body):
         b = lifteng.rand_body(rng, 60, 12)
         out.append(("randshape/%d" % i, lifteng.make_case(b, rich=rng.randrange(1 << 30))["src"]))
+    # fourth audit: the same skeletons as TEMPLATES with template content at the leaves (signal / component declarations,
+    # `<==`, `<--`, `===`, assert, log): bare bodies, `else if` chains, nested and empty blocks, an if without else closing
+    # a loop body, and loop nests up to 12 deep used to exist in function skeletons only.  The label carries the
+    # features of the skeleton (counted, with floors, by c12_stage).
+    def tlabel(kind, i, b):
+        feats, depth = lifteng.skeleton_features(b)
+        return "%s/%d#%s#%d" % (kind, i, ",".join(sorted(feats)), depth)
+    for i, b in enumerate(bodies):
+        out.append((tlabel("tshape", i, b), lifteng.render_template(b, rng.randrange(1 << 30))))
+    for i in range(n_body // 2):
+        b = lifteng.rand_body(rng, 60, 12)
+        out.append((tlabel("trandshape", i, b), lifteng.render_template(b, rng.randrange(1 << 30))))
+    for k in range(1, 13):
+        for salt in range(3):
+            b = lifteng.deep_nest(k, salt)
+            out.append((tlabel("tdeepnest", 3 * k + salt, b), lifteng.render_template(b, rng.randrange(1 << 30))))
     return out
 
 
-def split_records(line):
-    """harness line -> [(def sexp, result text, wf text or None)] or a status string.
-    A definition is `DEF d RES r` followed, in the modes `desugared` and `raw` (third audit), by `WF w`
-    (the C12 view of the same definition: nesting, block lists before and after into_ssa, accessors)."""
+def split_tagged(line):
+    """harness line -> [{"DEF": d, "RES": r, "WF": w?, "PRE": .., "POST": ..}] or a status string: a definition is `DEF d`
+    followed by tag / value pairs up to the next `DEF`."""
     parts = line.split("\t")
     if parts[0] in ("PARSE", "SUGAR", "EMPTY"):
         return " ".join(parts)
@@ -132,14 +147,25 @@ def split_records(line):
     while i < len(parts):
         if parts[i] != "DEF" or i + 3 >= len(parts) or parts[i + 2] != "RES":
             return "malformed harness line: " + line[:200]
-        wf = None
-        step = 4
-        if i + 5 < len(parts) and parts[i + 4] == "WF":
-            wf = parts[i + 5]
-            step = 6
-        out.append((parts[i + 1], parts[i + 3], wf))
-        i += step
+        rec = {"DEF": parts[i + 1]}
+        i += 2
+        while i < len(parts) and parts[i] != "DEF":
+            if i + 1 >= len(parts) or parts[i] not in ("RES", "WF", "PRE", "POST"):
+                return "malformed harness line: " + line[:200]
+            rec[parts[i]] = parts[i + 1]
+            i += 2
+        out.append(rec)
     return out
+
+
+def split_records(line):
+    """harness line -> [(def sexp, result text, wf text or None)] or a status string.
+    A definition is `DEF d RES r` followed, in the modes `desugared` and `raw` (third audit), by `WF w`
+    (the C12 view of the same definition: nesting, block lists before and after into_ssa, accessors)."""
+    f = split_tagged(line)
+    if isinstance(f, str):
+        return f
+    return [(r["DEF"], r["RES"], r.get("WF")) for r in f]
 
 
 def split_fields(line):
@@ -225,7 +251,7 @@ def run(common, rng, quick, extra_programs=(), programs=None, walk_bound=None):
                     view = c12_view(w_)
                     views.setdefault(d_, view)
                     stats["c12_views"] = stats.get("c12_views", 0) + 1
-                    if view is None or c12_failures(view):
+                    if view is None or split_identity(c12_failures(view))[0]:
                         c12_bad.append({"src": src, "label": label, "wf": (w_ or "")[:600]})
             if isinstance(f, str):
                 k = f.split(" ")[0] + " " + (f.split(" ") + [""])[1]
@@ -464,32 +490,90 @@ def c12_failures(view):
     return bad
 
 
+def split_identity(bad):
+    """(failures of clauses of the property text, failures of the check's own identity clause - statement identity by
+    span: every source statement exactly once and in source order)"""
+    return [b for b in bad if "IDENTITY: " not in b], [b for b in bad if "IDENTITY: " in b]
+
+
+WF_CLAUSES = ["index_is_position", "entry_no_pred", "edges_in_range", "preds_succs_mirror", "branch_only_last",
+              "branch_targets_ok", "at_most_two_succs", "pred_below (=> all_reachable, dom_implies_le, descending_paths)"]
+
+
+def c12_decisions(common, pairs):
+    """[(irdump before, irdump after or '-')] -> [{"PF","WFB","WFA","SH"} flags] through the extracted decision procedures of
+    Model.IrCfgCheck / Model.SsaPre (model driver `liftfull`, mode `c12`)."""
+    mb = common.build_model("liftfull")
+    out = common.run_lines(mb, ["c12"], [a + "\t" + b for a, b in pairs], shards=4) if pairs else []
+    if len(out) != len(pairs):
+        raise common.BuildError("liftfull engine (C12 stage): model output length mismatch", "%d %d" % (len(out), len(pairs)))
+    return [dict(x.split(" ", 1) for x in line.split("\t") if " " in x) if not line.startswith("(driver-error")
+            else {"error": line} for line in out]
+
+
+def decision_failures(flags, has_after):
+    """Violated statements of the round-4 theorems on one REAL (before, after) pair."""
+    bad = []
+    if "error" in flags:
+        return ["the model driver could not read the dump of the real graph: " + flags["error"][:200]]
+
+    def clauses(v):
+        w = v.split(" ")
+        bits = w[1] if len(w) > 1 else ""
+        return [WF_CLAUSES[i] for i, c in enumerate(bits) if c == "0" and i < len(WF_CLAUSES)]
+    if flags.get("PF") != "1":
+        bad.append("the graph before into_ssa holds a phi expression (SsaPre.phi_free = %s): the hypothesis of "
+                   "C12_ssa_blocks_are_phis_then_image / C12_ssa_keeps_wf fails" % flags.get("PF"))
+    if not flags.get("WFB", "").startswith("1"):
+        bad.append("into_cfg: IrCfgSpec.cfg_wf fails (C12_lifted_graph_wf): %s" % clauses(flags.get("WFB", "")))
+    if has_after:
+        if not flags.get("WFA", "").startswith("1"):
+            bad.append("into_ssa: IrCfgSpec.cfg_wf fails (C12_lifted_ssa_graph_wf / C12_ssa_keeps_wf): %s" % clauses(flags.get("WFA", "")))
+        if flags.get("SH") != "1":
+            bad.append("into_ssa: IrCfgSpec.ssa_shape_of before after fails (C12_ssa_keeps_blocks_edges_depths / "
+                       "C12_ssa_blocks_are_phis_then_image): some block changed its index, loop depth, predecessors or "
+                       "successors, or is not `phi assignments ++ the statements of the input block, same kind, one for one`")
+    return bad
+
+
+# floors of the template generator (fourth audit): template definitions with each feature per run
+FLOORS = {"bare": 50, "else_if": 20, "nested_block": 50, "empty_block": 20, "if_no_else_ends_loop": 5,
+          "loop nesting > 4": 10, "loop nesting > 8": 3}
+
+
 def c12_stage(common, rng, quick, extra_programs=()):
     """C12 on templates and functions as the production code lifts them: the REAL parser, desugarer,
     `impl TryLift for &TemplateData / &FunctionData` and `into_ssa` on every definition of the programs of
-    gen_programs (templates with signal / component declarations, constraints, both arrows, assert, log; functions),
-    each block list checked against the clauses of the property.  Only the harness runs here (no mirror).
-    -> {"failing": [..with the source as input..], "stats": {..}}"""
+    gen_programs (templates with signal / component declarations, constraints, both arrows, assert, log; functions;
+    fourth audit: skeletons rendered as templates - bare bodies, `else if`, nested / empty blocks, loop nests to 12).
+    (1) each block list against the clauses of the property (Python oracle on the shapes);
+    (2) fourth audit - the tie of the round-4 theorems: the two REAL graphs with their statements (harness mode `c12`)
+        through the extracted decisions SsaPre.phi_free (before), IrCfgCheck.cfg_wf_b (before, after),
+        IrCfgCheck.ssa_shape_b (before, after).
+    -> {"failing": [with the source as input], "identity": [identity-clause-only failures], "stats": ..}"""
     import collections
     hb = common.build_harness("liftfull")
     programs = list(extra_programs) + gen_programs(rng, quick)
     lines = [c18gen.escape(s) for _, s in programs]
-    impl = common.run_lines(hb, [], lines, shards=common.NPROC)
+    impl = common.run_lines(hb, ["c12"], lines, shards=common.NPROC)
     if len(impl) != len(lines):
         raise common.BuildError("liftfull engine (C12 stage): output length mismatch", "%d %d" % (len(impl), len(lines)))
     stats = collections.Counter()
     kinds = collections.Counter()
     feats = collections.Counter()
+    tfeats = collections.Counter()
     by_source = collections.Counter()
-    failing, seen = [], set()
+    failing, identity, seen = [], [], set()
+    todo = []      # (src, label, def, pre, post) for the model
     for (label, src), line in zip(programs, impl):
-        f = split_records(line)
+        f = split_tagged(line)
         if isinstance(f, str):
             stats["sources without a definition (%s)" % " ".join(f.split(" ")[:2])] += 1
             if f.startswith("malformed"):
                 failing.append({"input": src, "label": label, "impl": f, "spec": ["the harness line is readable"]})
             continue
-        for d, r, w in f:
+        for rec in f:
+            d, r, w = rec["DEF"], rec["RES"], rec.get("WF")
             stats["definitions"] += 1
             if d in seen:
                 continue
@@ -511,17 +595,49 @@ def c12_stage(common, rng, quick, extra_programs=()):
                 stats["graphs_with_two_or_more_blocks"] += "; " in view["before"]
                 # feature patterns of the syntax-tree dump (harness/src/astdump.rs)
                 for feat, pat in (("signal declaration", " (sig "), ("component declaration", " comp "), ("`<==`", " acs "),
-                                  ("`<--`", " as "), ("`===`", "(ceq @"), ("assert", "(assert @"), ("log", "(log @"),
-                                  ("signal or component declared under control flow", None)):
-                    if pat is not None and pat in d:
+                                  ("`<--`", " as "), ("`===`", "(ceq @"), ("assert", "(assert @"), ("log", "(log @")):
+                    if pat in d:
                         feats[feat] += 1
                 if any(dep > 0 for _, dep in view["nest"]) and (" (sig " in d or " comp " in d):
                     feats["template with a loop"] += 1
-            bad = c12_failures(view)
+                if label.count("#") == 2 and d.startswith("(def template T "):
+                    _, fs, depth = label.split("#")
+                    tfeats["skeleton templates"] += 1
+                    for x in fs.split(","):
+                        if x:
+                            tfeats[x] += 1
+                    tfeats["loop nesting > 4"] += int(depth) > 4
+                    tfeats["loop nesting > 8"] += int(depth) > 8
+                if "PRE" in rec:
+                    todo.append((src, label, d, rec["PRE"], rec.get("POST", "-"), w))
+                else:
+                    failing.append({"input": src, "label": label, "impl": "no PRE / POST dump",
+                                    "spec": ["the harness (mode c12) prints the real graphs with their statements"]})
+            bad, ident = split_identity(c12_failures(view))
             if bad:
                 failing.append({"input": src, "label": label, "definition": d[:300], "impl": (w or "")[:3000], "spec": bad[:5]})
-    return {"failing": failing, "stats": dict(stats), "kinds": dict(kinds), "features": dict(feats),
-            "by_generator": dict(by_source), "programs": len(programs)}
+            elif ident:
+                identity.append({"src": src, "label": label, "definition": d[:300], "impl": (w or "")[:1500], "clause": ident[:2]})
+    # (2) the round-4 theorems on the real graphs
+    dec = c12_decisions(common, [(t[3], t[4]) for t in todo])
+    tie = collections.Counter()
+    for (src, label, d, pre, post, w), flags in zip(todo, dec):
+        has_after = post.strip() != "-"
+        tie["pairs_evaluated"] += 1
+        tie["with_graph_after_into_ssa"] += has_after
+        tie["phi_free_true"] += flags.get("PF") == "1"
+        tie["cfg_wf_before_true"] += flags.get("WFB", "").startswith("1")
+        tie["cfg_wf_after_true"] += has_after and flags.get("WFA", "").startswith("1")
+        tie["ssa_shape_of_true"] += has_after and flags.get("SH") == "1"
+        bad = decision_failures(flags, has_after)
+        if bad:
+            failing.append({"input": src, "label": label, "definition": d[:300], "impl": (w or "")[:3000], "spec": bad[:5],
+                            "flags": flags})
+    floors = {k: {"seen": tfeats.get(k, 0), "floor": v} for k, v in FLOORS.items()}
+    return {"failing": failing, "identity": identity, "stats": dict(stats), "kinds": dict(kinds), "features": dict(feats),
+            "by_generator": dict(by_source), "programs": len(programs), "tie": dict(tie),
+            "template_skeleton_features": dict(tfeats), "floors": floors,
+            "floors_missed": [k for k, v in floors.items() if v["seen"] < (v["floor"] if quick else v["floor"])]}
 
 
 def c12_replay(common, src):
@@ -537,10 +653,20 @@ def c12_replay(common, src):
         view = c12_view(w)
         print("definition    :", d[:160])
         print("implementation:", (w or "-")[:2000])
-        bad = ["no C12 view printed"] if view is None else c12_failures(view)
+        bad = ["no C12 view printed"] if view is None else split_identity(c12_failures(view))[0]
         for b in bad[:8]:
             print("violated      :", b)
         n += len(bad)
+    line, = common.run_lines(hb, ["c12"], [c18gen.escape(src)])
+    f = split_tagged(line)
+    if not isinstance(f, str):
+        recs = [r for r in f if "PRE" in r]
+        for rec, flags in zip(recs, c12_decisions(common, [(r["PRE"], r.get("POST", "-")) for r in recs])):
+            print("decisions     :", flags)
+            bad = decision_failures(flags, rec.get("POST", "-").strip() != "-")
+            for b in bad:
+                print("violated      :", b)
+            n += len(bad)
     return n
 
 
